@@ -420,3 +420,25 @@ def run_all(prop_id, tier, obs, level, meta, extra_cov=None, jobs=None):
         return finish(prop_id, tier, obs, level, meta, t0, scratch, extra_cov)
     finally:
         shutil.rmtree(scratch, ignore_errors=True)
+
+
+def replay_file(path):
+    """./check <ID> --replay <path>: rebuild the harness natively (ASan/UBSan) and re-run the recorded inputs."""
+    hdr = open(path).readline()
+    m = re.match(r"# harness=(\S+) defs=(.*)$", hdr.strip())
+    if not m:
+        print("not a replay file: " + path)
+        return 2
+    ob = Ob("replay", m.group(1), defs=m.group(2).split())
+    scratch = tempfile.mkdtemp(prefix="verif-replay-")
+    try:
+        exe, err = build_native(ob, scratch)
+        if exe is None:
+            print(err)
+            return 2
+        env = dict(os.environ, ASAN_OPTIONS="detect_leaks=0", UBSAN_OPTIONS="print_stacktrace=1")
+        rc, out, _ = run([exe, path], 120, 0, env=env)
+        print(out)
+        return 0 if rc == 0 else 1
+    finally:
+        shutil.rmtree(scratch, ignore_errors=True)
